@@ -157,7 +157,7 @@ theorem loop_chunks (cs : List Chunk) (hcs : ∀ c ∈ cs, NlFree c.content) (n 
 
 /-! ### retry -/
 
-theorem parseInt_digits (ds : Bytes) (d : Byte) (t : Bytes) (hdt : ds = d :: t) (hdig : ds.all isDigit = true)
+theorem parseInt_digits_cons (ds : Bytes) (d : Byte) (t : Bytes) (hdt : ds = d :: t) (hdig : ds.all isDigit = true)
     (hle : digitsVal ds ≤ maxInt64) : parseInt ds = some (digitsVal ds : Int) := by
   subst hdt
   have hd : isDigit d = true := by simp at hdig; exact hdig.1
@@ -307,7 +307,7 @@ theorem unmarshal_encode (m : Message) (hm : WF m) (hc : Canon m) (hr : m.retry 
             have hdig := accLoop_digits _ _ _ _ hdg' (by simp)
             obtain ⟨d, t, hdt, _⟩ := accLoop_head _ _ _ _ hdg' (by omega)
             have hv' : digitsVal ds = m.millis.toNat := by simpa [digitsVal] using hv
-            have hpi := parseInt_digits ds d t hdt hdig (by rw [hv']; unfold maxInt64; omega)
+            have hpi := parseInt_digits_cons ds d t hdt hdig (by rw [hv']; unfold maxInt64; omega)
             refine ⟨n2, { fp2 with started := true, data := _ }, _, ?_, hk2, rfl, rfl, ?_, rfl⟩
             · have hd' : fp2.data = (fieldBytesRetry ++ ds) ++ 10 :: (term (m.chunks.map chunkLine) ++ [10]) := by
                 rw [hd2]; simp [h, hdg, term, List.append_assoc]
